@@ -543,6 +543,49 @@ where
     }
 }
 
+/// The same distribution with a constant added to its unnormalised log-density (a sampler only
+/// ever sees differences, so nothing may depend on it; large constants expose intermediate
+/// values kept at less than the backend's precision).
+#[derive(Clone, Debug)]
+pub struct Shifted<Tg> {
+    pub inner: Tg,
+    pub c: f64,
+}
+impl<Tg: RefTarget> RefTarget for Shifted<Tg> {
+    fn dim(&self) -> usize {
+        self.inner.dim()
+    }
+    fn logp(&self, x: &[f64]) -> f64 {
+        self.inner.logp(x) + self.c
+    }
+    fn grad(&self, x: &[f64]) -> Vec<f64> {
+        self.inner.grad(x)
+    }
+    fn name(&self) -> String {
+        format!("{}+const({:e})", self.inner.name(), self.c)
+    }
+}
+impl<T, B, Tg> GradientTarget<T, B> for Shifted<Tg>
+where
+    T: Float + Element,
+    B: AutodiffBackend,
+    Tg: GradientTarget<T, B>,
+{
+    fn unnorm_logp(&self, position: Tensor<B, 1>) -> Tensor<B, 1> {
+        self.inner.unnorm_logp(position).add_scalar(self.c)
+    }
+}
+impl<T, B, Tg> BatchedGradientTarget<T, B> for Shifted<Tg>
+where
+    T: Float + Element,
+    B: AutodiffBackend,
+    Tg: BatchedGradientTarget<T, B>,
+{
+    fn unnorm_logp_batch(&self, positions: Tensor<B, 2>) -> Tensor<B, 1> {
+        self.inner.unnorm_logp_batch(positions).add_scalar(self.c)
+    }
+}
+
 /// Central-difference gradient of a RefTarget (guards the closed-form gradients).
 pub fn fd_grad<R: RefTarget>(t: &R, x: &[f64]) -> Vec<f64> {
     (0..x.len())
